@@ -17,6 +17,10 @@ oracle:         the property text on the real archive (pkgcommon.oracle_c03): fi
                 their own paths, byte-identical, with the media type they were listed with (pkgcommon.oracle_carried; the
                 model side of this clause is Props/C03 `extras_present` / Props/C05Extras `extras_carried`).
                 Loaded packages hold objects 2 and 3 deep under any number ('chain'), each with a picture and files of its own.
+                Picture media types include RFC 2045 parameters, upper case, +xml suffixes, the empty string, very long ones (PARAM_MTS):
+                the manifest lists the string given.  Objects under explicit numbered names (descending, with gaps, equal to the next
+                default name; built or loaded in that manifest order) followed by default names: a reference returned by addObject is
+                not the reference of another object of the same document (`addobject-reference-already-in-use`).
                 A failure in the first save of a document is replayed after the last loaded and the last built document the
                 process saved before it (`process_before`): state that leaks from one save of a process into the next.
 """
@@ -25,6 +29,20 @@ import pkgcommon as pk
 from common import enc_str
 
 PIC_MTS = [u'image/png', u'image/jpeg', u'image/gif', u'image/svg+xml', u'application/x-odfpy-unknown', u'']
+# media types as a caller may give them (RFC 2045 / 6838): parameters behind ';' (one, several, quoted values that hold a ';' themselves),
+# upper / mixed case, structured-syntax suffixes, the empty string, only a ';', very long, XML metacharacters, non-ASCII.
+# A media type is data: the manifest lists exactly the string that was given
+PARAM_MTS = [u'image/svg+xml;charset=utf-8', u'image/svg+xml; charset=UTF-8', u'image/png; name="a;b"', u'image/png;name="chart 1.png"',
+             u'text/plain; charset=utf-8; format=flowed', u'IMAGE/PNG', u'Image/Svg+XML', u'application/vnd.x-thing+xml',
+             u'application/vnd.oasis.opendocument.graphics;version=1.2', u'image/png;', u';', u';charset=utf-8', u'image/jpeg ;q=1',
+             u'image/x-long-' + u'a' * 900 + u';p=' + u'b' * 300, u"image/x-meta;q='&<>", u'image/x-\xe9;n=\u6f22', u'image', u'image/png/extra', u'']
+
+
+def pick_mt(rng, pool):
+    """a media type for a picture: one of `pool`, or (one in four) one of PARAM_MTS"""
+    return rng.choice(PARAM_MTS) if rng.random() < 0.25 else rng.choice(pool)
+
+
 # explicit picture names ({n} = 1..3, so the same name is re-registered now and then).  Names are data, never to be decoded:
 # percent escapes, blanks, URL/XML metacharacters, non-ASCII, case variants, a leading './', and pairs that differ only by such an encoding
 TRICKY = [u'Pictures/100%25-{n}.png', u'Pictures/a%20b{n}.gif', u'Pictures/a b{n}.gif', u'Pictures/a+b{n}.gif', u'Pictures/a%2Bb{n}.gif',
@@ -48,12 +66,12 @@ def gen_pic(rng, n):
     p = {'how': how, 'data': data.hex()}
     if how in ('file', 'addpicture-file'):
         p['ext'] = rng.choice(['.png', '.jpg', '.xyzzy', '', '.svg'])
-        p['mt'] = rng.choice([None, None, u'image/png', u'image/x-thing'])
+        p['mt'] = pick_mt(rng, [None, None, u'image/png', u'image/x-thing'])
     elif how == 'string':
-        p['mt'] = rng.choice(PIC_MTS[:5])
+        p['mt'] = pick_mt(rng, PIC_MTS[:5])
     else:
         p['name'] = rng.choice(EXPLICIT).format(n=rng.choice([1, 1, 2, 3]))     # small pool: re-registration under one name happens
-        p['mt'] = rng.choice(PIC_MTS)
+        p['mt'] = pick_mt(rng, PIC_MTS)
     return p
 
 
@@ -71,6 +89,56 @@ def gen_doc(rng, depth, maxdepth):
             k['name'] = rng.choice([None, None, None, None, u'MyObj', u'/MyObj', u'/Sub obj', u'Object 2', u'/Object 7', u'Obj/x', u'\xe9\u6f22'])
             s['kids'].append(k)
     return s
+
+
+def numbered_nums(rng, e, taken=0):
+    """`e` numbers for explicit "Object <n>" names given to a parent that holds `taken` objects: they lie where the default numbering
+    is going to look (it starts at <number of objects> + 1): a run from there, or a sample with gaps around it; descending,
+    shuffled or ascending"""
+    s = taken + e + 1
+    if rng.random() < 0.5:
+        nums = list(range(s, s + e))
+    else:
+        nums = rng.sample(range(max(1, s - 2), s + e + 2), e)
+    order = rng.choice(['desc', 'desc', 'desc', 'shuffled', 'shuffled', 'asc'])
+    if order == 'shuffled':
+        rng.shuffle(nums)
+    else:
+        nums.sort(reverse=(order == 'desc'))
+    return nums
+
+
+def gen_numbered(rng, from_load):
+    """explicit numbered names (descending / with gaps / equal to the next default name), then default names: every default-named
+    object must get a FREE name.  The parent is the top document (built, or loaded from a package whose manifest lists the
+    object folders in that order) or an object of it; every object has a picture of its own"""
+    def leaf(name, i):
+        return {'kind': rng.choice(['text', 'spreadsheet', 'chart', 'graphics']), 'settings': False, 'thumb': None, 'kids': [], 'name': name,
+                'pics': [{'how': 'string', 'data': '89%02x' % i, 'mt': u'image/png'}] if rng.random() < 0.7 else []}
+    base = None
+    e = rng.choice([1, 2, 2, 3, 4])
+    nums = numbered_nums(rng, e)
+    defaults = rng.choice([1, 1, 2, 3])
+    if from_load:
+        base = gen_package(rng)
+        base['objects'] = [{'num': n, 'kind': rng.choice(['text', 'spreadsheet']), 'settings': False, 'nested': False, 'files': False,
+                            'pics': [(u'Pictures/obj%d.png' % n, u'image/png', bytes([n % 256, 1, 2]).hex())] if rng.random() < 0.5 else []} for n in nums]
+        base['shuffle'] = rng.random() < 0.2
+        names = [None] * defaults
+        if rng.random() < 0.3:
+            names.insert(rng.randrange(len(names)), u'Object %d' % (max(nums) + rng.choice([1, 2])))
+    else:
+        names = [u'Object %d' % n for n in nums] + [None] * defaults
+        if rng.random() < 0.25:
+            # one default name early: the explicit names that follow may be equal to it (-> ValueError) or lie behind it
+            names.insert(rng.randrange(e), None)
+    holder = {'kind': 'text', 'settings': False, 'thumb': None, 'pics': [], 'kids': [leaf(nm, i) for i, nm in enumerate(names)]}
+    if base is not None:
+        holder['kind'] = base['kind']
+    elif rng.random() < 0.4:
+        holder['kind'] = 'spreadsheet'; holder['name'] = rng.choice([None, u'Holder'])
+        holder = {'kind': 'text', 'settings': False, 'thumb': None, 'pics': [], 'kids': [holder]}
+    return {'doc': holder, 'base': base, 'again': rng.random() < 0.3}
 
 
 def gen_package(rng, special=None):
@@ -284,6 +352,11 @@ def build(ctx, spec, m=None):
             if (list(m.real.childobjects), [x.real.folder for x in k.walk()]) != before:
                 ctx.bad.append(('addobject-refusal-not-atomic', 'addObject(%r) raised ValueError but left a trace' % (ks.get('name'),)))
             continue
+        # the reference names the folder of THIS object: a reference handed out before (or the folder of an object the document
+        # was loaded with) is in use - two objects in one folder are members written twice
+        if ref in m.refs or ref in getattr(m, 'refs_in_use', ()):
+            ctx.bad.append(('addobject-reference-already-in-use', 'addObject(%r) returned %r, the reference of another object of the same '
+                            'document (handed out: %r, loaded with: %r)' % (ks.get('name'), ref, m.refs, sorted(getattr(m, 'refs_in_use', ())))))
         m.kids.append(k); m.refs.append(ref)
     return m
 
@@ -327,6 +400,10 @@ def run_case(chk, drv, case, oracle_only=False):
             top = mirror_of_loaded(doc, pk.dedup_keys(pspec['manifest']))
             arch0 = pk.read_archive(raw0)           # the package as it was handed to load()
             nregs0 = len(top.regs)
+            # the object folders of the package as it was handed to load() (manifest through expat, members through zipfile)
+            top.refs_in_use = set(u'./' + p_[:-1] for p_, _t in (arch0.manifest or [])
+                                  if p_.endswith(u'/') and p_.count(u'/') == 1 and p_.startswith(u'Object ') and p_[7:-1].isdigit()
+                                  and (p_ + u'content.xml') in arch0.names)
             if not oracle_only:
                 ans = drv.ask(pk.load_request(pspec, nonempty))
                 chk.corr()
@@ -467,6 +544,17 @@ def gen_cases(chk, n):
     yield {'doc': {'kind': cb['kind'], 'settings': False, 'thumb': None, 'pics': [], 'kids': []}, 'base': cb, 'via': ['fileobj', 'write', 'name']}
     yield {'doc': {'kind': 'text', 'settings': False, 'thumb': None, 'kids': [],
                    'pics': [{'how': 'file', 'data': '616263', 'mt': None, 'ext': '', 'relpath': u'd.//a'}]}, 'base': None}
+    # media types with parameters / upper case / suffixes / empty / long, through every registration call, in the document and in an object
+    def param_pics(k):
+        hows = ['string', 'file', 'addpicture-file', 'named']
+        return [{'how': hows[(i + k) % 4], 'data': '%02x%02x' % (i, k), 'mt': t, 'ext': ['.svg', '.png', ''][i % 3], 'name': u'Pictures/mt%d-%d.bin' % (k, i)}
+                for i, t in enumerate(PARAM_MTS)]
+    for k in range(4):
+        yield {'doc': {'kind': 'text', 'settings': False, 'thumb': None, 'pics': param_pics(k), 'kids': [
+            {'kind': 'spreadsheet', 'settings': False, 'thumb': None, 'pics': param_pics(k + 1), 'kids': []}]}, 'base': None, 'again': k == 0}
+    # explicit numbered object names in descending order / with gaps / equal to the next default name, then default names
+    for i in range(60 if chk.tier == 'thorough' else 24):
+        yield gen_numbered(rng, from_load=i % 3 == 2)
     # exhaustive matrix: picture kind x nesting depth of the object that owns it x thumbnail x settings x extras
     for how in ('file', 'addpicture-file', 'string', 'named'):
         for d in range(4):
@@ -499,6 +587,7 @@ def run(chk, replay=None):
                 'explicit names and loaded member names include %XX escapes, blanks, + # ? & quotes < >, non-ASCII, case variants, a leading ./ and pairs differing only by such an encoding; '
                 '30% start from load() of a hand-made package with extras, directories, pictures, objects (35% of them holding objects 2 and 3 deep with pictures and files of their own) and a shuffled manifest; every file of the loaded package that save() does not write afresh is looked up under its path in each of the three saved packages; '
                 'plus the exhaustive matrix picture kind x owner depth 0..3 x thumbnail x settings x from-load (128 cases); every media type incl. templates made with add_generator=False (empty meta/settings/body/styles); saved through save(file object) / save(name) / save(name, addsuffix) / write(); each case saved three times; up to 3 sub-documents of each tree saved as a package of their own; '
+                'one picture media type in four from a list with parameters (;charset=..., quoted ";"), upper case, +xml, empty, 1200 characters, XML metacharacters, non-ASCII; 24 (thorough: 60) documents whose objects get explicit numbered names (descending / gaps / equal to the next default; a third of them loaded from a package listing the folders in that order) and then default names; '
                 'non-trivial = at least one embedded object or picture or extra')
     if replay is not None:
         # a failure seen in the FIRST save of a document is replayed after the documents the process saved before it
